@@ -49,7 +49,7 @@ ASSUMPTIONS = {
     'C06': ['B must issue the same event kinds, shapes and (bitwise) scales as A, consume all of A\'s events, raise iff A raises (same type), and return a dataframe identical to A\'s over the original domain'],
 }
 TIERS = {
-    p: {'quick': dict(runs=640, budget_s=300, hashseeds=4, minimise_s=150, grace_s=240),
+    p: {'quick': dict(runs=960, budget_s=420, hashseeds=4, minimise_s=150, grace_s=240),
         'thorough': dict(runs=None, budget_s=900, hashseeds=16, minimise_s=400, grace_s=300)}
     for p in ('C05', 'C06')
 }
@@ -167,6 +167,24 @@ def gen_case(rnd, prop, tier):
         n = rnd.choice([3, 4]) * max(sizes)
         off = [rnd.randrange(s) for s in sizes]
         recs = [[(j + o) % s for s, o in zip(sizes, off)] for j in range(n)]
+    mirrored = mech == 'mst' and not big and rnd.random() < 0.3
+    if mirrored:
+        # two binary attributes u, v with mirrored marginals (u: n0/n1, v: n1/n0), each present twice (u, u', v, v'): the pairs (u,u') and
+        # (v,v') have equal data-derived scores on D (up to rounding) but different tables; the noise policy below is 'zero' so that the
+        # noisy one-way answers keep the symmetry.  Whatever orders or thresholds releases by such scores is decided by the neighbour's record.
+        attrs = (attrs + ['m1', 'm2', 'm3'])[:4]
+        sizes = [2, 2, 2, 2]
+        p_, q_, q2_ = rnd.randint(5, 40), rnd.randint(3, 30), rnd.randint(31, 60)
+        uv = [(0, 0)] * p_ + [(1, 1)] * p_ + [(0, 1)] * q_ + [(1, 0)] * q2_
+        rnd.shuffle(uv)
+        cols = rnd.sample(range(4), 4)          # positions of u, u', v, v'
+        recs = []
+        for u_, v_ in uv:
+            r_ = [0, 0, 0, 0]
+            r_[cols[0]] = r_[cols[1]] = u_
+            r_[cols[2]] = r_[cols[3]] = v_
+            recs.append(r_)
+        n = len(recs)
     bounded = mech == 'mwem' and rnd.random() < 0.5
     adj = 'replace' if bounded else rnd.choice(['remove', 'add'])
     how = rnd.choice(['random', 'rare', 'popular'])
@@ -185,6 +203,8 @@ def gen_case(rnd, prop, tier):
     delta = rnd.choice([1e-12, 1e-10, 1e-9, 4e-9, 1e-6, 1e-3])
     if big:
         eps, delta = rnd.choice([30.0, 60.0, 100.0]), rnd.choice([1e-6, 1e-3])
+    if mirrored:
+        eps = rnd.choice([10.0, 30.0, 60.0])
     params = {}
     if mech == 'aim':
         import itertools
@@ -205,7 +225,7 @@ def gen_case(rnd, prop, tier):
                 if adj == 'add' and rnd.random() < 0.6:
                     cell = rnd.choice(zeros[1])
                     newrec[zi[0]], newrec[zi[1]] = cell[0], cell[1]      # the extra record of the neighbour sits in a declared-impossible cell
-        params = dict(zeros=zeros, rounds=rnd.choice([d, d + 1, 2 * d, 6, 8]) if rnd.random() < 0.9 else rnd.choice([1, 2]), max_model_size=rnd.choice([80, 80, 1e-4, 3e-4]),
+        params = dict(zeros=zeros, rounds=rnd.choice([d, d + 1, 2 * d, 6, 8]) if rnd.random() < 0.9 else rnd.choice([1, 2]), max_model_size=rnd.choice([80, 80, 1e-4, 3e-4, 2e-4]),
                       workload=[[w, rnd.choice([1.0, 1.0, 2.0, 0.5])] for w in wl])
     elif mech == 'mwem':
         import itertools
@@ -232,6 +252,8 @@ def gen_case(rnd, prop, tier):
              'argmin': {'argmin': 0.7}, 'repeat': {'repeat': 0.8},
              'mixed': {'zero': 0.1, 'outlier': 0.15, 'blackout': 0.1, 'allsup': 0.1, 'argmin': 0.2, 'repeat': 0.2, 'first': 0.1,
                        'nr_lowest': 0.3, 'many_min': 0.1}}[pol]
+    if mirrored:
+        pol, rates = 'zero', {'zero': 1.0}
     earlier = None
     if rnd.random() < 0.12:
         # an earlier run of the same mechanism in the same process, on other data of the same domain with as many records as D or D'
@@ -240,7 +262,7 @@ def gen_case(rnd, prop, tier):
     if rnd.random() < 0.15:
         prelude = [[eps, rnd.choice([4e-9, 1e-9, 1e-6, 1e-3])]]     # an earlier run in the same process with another delta
     weights = None
-    if rnd.random() < 0.12:
+    if rnd.random() < (0.3 if mech == 'mwem' else 0.12):
         # weighted records, all weights <= 1 so that one record still moves every count by at most 1
         weights = [rnd.choice([1.0, 1.0, 0.5, 0.25]) for _ in recs]
         weights[idx] = 1.0 if rnd.random() < 0.7 else weights[idx]
